@@ -583,9 +583,33 @@ def t4(ctx):
     for mc in macs:
         t = mc['tokens'].replace(' ', '')
         r.inst('macro:' + mc['name'])
+        # repetition groups of the transcriber: `$( ... )*` / `)+` / `),*`
+        groups = []
+        i_ = 0
+        while True:
+            i_ = t.find('$(', i_)
+            if i_ < 0:
+                break
+            depth, j_ = 0, i_ + 1
+            while j_ < len(t):
+                if t[j_] == '(':
+                    depth += 1
+                elif t[j_] == ')':
+                    depth -= 1
+                    if depth == 0:
+                        break
+                j_ += 1
+            groups.append(t[i_ + 2:j_])
+            i_ = j_
+        per_kind_search = [g_ for g_ in groups if any(w in g_ for w in ('.find(', '.position(', '.filter(', '.find_map(', 'forxin', 'whilelet', '.any(', '.skip_while('))]
         if '.rev()' in t or '.last()' in t:
             r.fail('sv-parser:%s:first-match' % mc['name'], 'sv-parser/src/lib.rs:%s' % mc['l'],
                    '%s! must iterate forward and return the FIRST node of the requested kinds' % mc['name'])
+        elif per_kind_search:
+            r.fail('sv-parser:%s:first-match' % mc['name'], 'sv-parser/src/lib.rs:%s' % mc['l'],
+                   '%s! searches the nodes once PER requested kind (`%s` inside the `$(..)*` repetition) instead of testing every kind at each node of one pass: the '
+                   'result is the first-listed kind that occurs, not the first node in iteration order (and a shared iterator is used up by the first search)'
+                   % (mc['name'], per_kind_search[0][:50]))
         elif not ('forxin$n{' in t and 'returnSome(' in t and 'None' in t and t.index('returnSome(') < t.rindex('None')):
             r.undecided('sv-parser:%s:first-match' % mc['name'], 'sv-parser/src/lib.rs:%s' % mc['l'], '%s!: body not in the recognised for/return form' % mc['name'])
     return r
